@@ -1,0 +1,47 @@
+//! C09: read-only views of the replication update vector and of the trim point of a
+//! read transaction (the types live in crate-private modules).
+//!
+//! Everything here only *reads* server state; nothing is changed.
+
+use crate::be::BackendTransaction;
+use crate::prelude::*;
+use crate::repl::ruv::ReplicationUpdateVectorTransaction;
+
+/// One RUV `data` row: the change id and the entry ids recorded for it.
+pub type RuvRow = (Cid, Vec<u64>);
+/// One RUV `ranged` row: the server uuid and its time stamps, ascending.
+pub type RangedRow = (Uuid, Vec<Duration>);
+
+fn dump<R: ReplicationUpdateVectorTransaction>(ruv: &R) -> (Vec<RuvRow>, Vec<RangedRow>) {
+    let data = ruv
+        .ruv_snapshot()
+        .iter()
+        .map(|(cid, idl)| (cid.clone(), idl.into_iter().collect::<Vec<u64>>()))
+        .collect();
+    let ranged = ruv
+        .range_snapshot()
+        .iter()
+        .map(|(s, set)| (*s, set.iter().copied().collect::<Vec<Duration>>()))
+        .collect();
+    (data, ranged)
+}
+
+/// The complete in-memory RUV as seen by a read transaction.
+pub fn ruv_dump_read(txn: &mut QueryServerReadTransaction<'_>) -> (Vec<RuvRow>, Vec<RangedRow>) {
+    dump(txn.get_be_txn().get_ruv())
+}
+
+/// The complete in-memory RUV as seen inside a write transaction.
+pub fn ruv_dump_write(txn: &mut QueryServerWriteTransaction<'_>) -> (Vec<RuvRow>, Vec<RangedRow>) {
+    dump(txn.get_be_txn().get_ruv())
+}
+
+/// The trim change id a read transaction (i.e. a supplier) works with.
+pub fn trim_cid_read(txn: &QueryServerReadTransaction<'_>) -> Cid {
+    txn.trim_cid().clone()
+}
+
+/// The trim change id of a write transaction.
+pub fn trim_cid_write(txn: &QueryServerWriteTransaction<'_>) -> Cid {
+    txn.trim_cid().clone()
+}
